@@ -817,6 +817,18 @@ class AsyncFIXConnection:
                     return
                 await self._state_set(ConnectionState.LOGON_INITIAL_RECV)
                 self._connection_role = ConnectionRole.ACCEPTOR
+            elif (
+                self._connection_state
+                in (
+                    ConnectionState.LOGON_INITIAL_SENT,
+                    ConnectionState.LOGON_INITIAL_RECV,
+                )
+                and msg.msg_type != FMsg.LOGON
+                and msg.msg_type != FMsg.LOGOUT
+            ):
+                # the Logon exchange has not completed: nothing else is acceptable
+                await self.disconnect(ConnectionState.DISCONNECTED_BROKEN_CONN)
+                return
 
             if msg.msg_type == FMsg.LOGON:
                 await self._process_logon(msg)
